@@ -150,6 +150,21 @@ Theorem C18_number_round_trip :
 Proof. exact read_value_number_written. Qed.
 Print Assumptions C18_number_round_trip.
 
+(* ... and the empty containers, at every depth the nesting bound admits *)
+Theorem C18_empty_list_round_trip :
+  forall float_ok s k fuel d,
+    ready s (91 :: 93 :: k) -> 2 <= fuel -> S d <= max_nesting ->
+    exists s', read_value float_ok fuel d s = ROk (PList []) s' /\ ready s' k.
+Proof. exact read_value_empty_list_written. Qed.
+Print Assumptions C18_empty_list_round_trip.
+
+Theorem C18_empty_object_round_trip :
+  forall float_ok s k fuel d,
+    ready s (123 :: 125 :: k) -> 2 <= fuel -> S d <= max_nesting ->
+    exists s', read_value float_ok fuel d s = ROk (PMap []) s' /\ ready s' k.
+Proof. exact read_value_empty_map_written. Qed.
+Print Assumptions C18_empty_object_round_trip.
+
 Example C18_scalar_round_trip_instances :
   (* RED_1] is the symbol, null, is null, -12] is the integer: the theorems' conclusions computed *)
   let s0 l := mkP l false 0 false 0 0 in
